@@ -1,11 +1,12 @@
 SPECIFICATION Spec
 CONSTANTS
-  DimLists <- NoOnesQuick
-  Seeds <- Seeds2
+  DimLists <- AllQuick
+  Seeds <- Seeds1
   Variant = "code"
-  AllowEmptyKeep = FALSE
+  AllowEmptyKeep = TRUE
 INVARIANT PtrExact
 INVARIANT PtrShape
 INVARIANT CompressFaithful
+INVARIANT DescriptionFits
 INVARIANT Terminates
 CHECK_DEADLOCK FALSE
